@@ -128,7 +128,7 @@ class C02(Prop):
     design_ref = '§5 C02'
     rule = ('frame values of all 14 types from the repo\'s own classes over boundary values of every field (0,1,2,max,max-1,2^(k-1),random) and all flag '
             'combinations; malformed stream = truncations, bit flips, type rewrites, ignore flag, appended bytes, metadata flag forced, random bytes; batches of both are '
-            're-run in a sub-process with cbitstruct blocked; non-trivial = a valid frame with content or a malformed blob on which the decoder gets past the header; '
+            'plus frames whose metadata length sits at the byte boundaries of the 24-bit length field (255..131077 bytes); re-run in a sub-process with cbitstruct blocked; non-trivial = a valid frame with content or a malformed blob on which the decoder gets past the header; '
             'distinct = distinct bytes')
     assumptions = ['frames are built through the repo\'s classes with token_length = len(token)']
 
@@ -137,6 +137,14 @@ class C02(Prop):
         n = 6000 if tier == 'quick' else 200000
         for _ in range(n):
             out.append({'kind': 'enc', 'spec': FR.gen_spec(rng, big=rng.random() < 0.05)})
+        # the 24-bit metadata length at and beyond its byte boundaries (255/256, 65535/65536, three significant bytes)
+        for _ in range(14 if tier == 'quick' else 120):
+            spec = FR.gen_spec(rng, kinds=['PAYLOAD', 'REQUEST_RESPONSE', 'REQUEST_FNF', 'REQUEST_STREAM', 'REQUEST_CHANNEL', 'SETUP'])
+            k = rng.choice([255, 256, 257, 65535, 65536, 65537, 70000, 131077])
+            b = rng.getrandbits(8)
+            spec['md'] = (bytes([b]) * k).hex()
+            spec['d'] = FR.rbytes(rng, 0, 40).hex()
+            out.append({'kind': 'enc', 'spec': spec})
         for _ in range(n):
             base = FR.build(FR.gen_spec(rng)).serialize()
             out.append({'kind': 'dec', 'blob': mutate(rng, base).hex()})
